@@ -920,7 +920,9 @@ impl Parser {
                 self.advance();
             }
             while self.next_matches(&TokenEnum::Comma).is_some() || clause_ended_with_brace {
-                if self.peek(&TokenEnum::RightBrace) {
+                // (at the end of the input there is nothing left to parse as a clause; without this
+                // check a clause ending with '}' made this loop spin forever, piling up errors)
+                if self.peek(&TokenEnum::RightBrace) || self.tokens.peek().is_none() {
                     break;
                 }
                 if let Ok((clause, ends_with_brace)) = self.parse_match_clause() {
